@@ -49,6 +49,10 @@ FIXED = [
     ("KF-C19-b1", "4ca33bd", "euclidean.py is_one_euclidean",
      "is_one_euclidean placed the first group of grey alternatives in set iteration order instead of the first "
      "voter's order: True with a map that does not realise the votes"),
+    ("KF-C19-b", "74e9e2c", "euclidean.py _one_euclidean_gen_sets / is_one_euclidean",
+     "is_one_euclidean answered True with a map that does not realise the votes whenever a grey alternative is ranked by "
+     "the first voter of the single-crossing order above some coloured alternative (several F/G groups: runs not computed, "
+     "overlapping distance bands, alternatives without a position); smallest input (1,2,3,4),(1,2,4,3)"),
 ]
 
 
